@@ -1,5 +1,6 @@
 import JominiModel.Spec.BinDocText
 import JominiModel.Proofs.BinDocText
+import JominiModel.Proofs.BinDocTextFlat
 import JominiModel.Proofs.DateLeaf
 /-
 C10 — text and binary renderings of one document deserialize to the same value.
@@ -83,5 +84,13 @@ for bit — and by the implementation oracle):
     oracle `x-c10-real` with real `jomini::common::Date` fields.
   * full statement  C10 : SharedSubset d → Fits ty d → valueOfText c ty d = valueOfBin c ty d.
 -/
+
+/-- C10 capstone on flat documents (see `Proofs/BinDocTextFlat.lean`): one logical flat document of
+integers / unsigned / bools / strings, one struct definition: text reference = binary reference = what the
+tape, on-demand and streaming deserializer models return. -/
+theorem C10_flat_end_to_end : type_of% @BinDe.C10_flat_end_to_end := @BinDe.C10_flat_end_to_end
+
+/-- the date leaf for the same capstone. -/
+theorem C10_flat_date_leaf : type_of% @BinDe.C10_flat_date_leaf := @BinDe.C10_flat_date_leaf
 
 end Jomini.Props.C10
